@@ -448,6 +448,53 @@ theorem C19_cql_time_destination (sec : Int) (nsec clk : Nat) (nd : List UInt8) 
     split <;> simp
   · intro data; simp [unmarshalCQLTime]
 
+/-- Nullable destinations (`**UUID`, `**[16]byte`, `**[]byte`, `**string`) of `gocql.Unmarshal`, for every column
+    value and whatever the pointer pointed to before: a null column gives a nil pointer; a 16-byte value gives a
+    pointer to exactly that value (canonical text for `**string`); every other value gives a pointer to a FRESH
+    value — the zero value with an error for a wrong length, the empty value for an empty column (`**[16]byte`:
+    error) — never a half-written or stale one. -/
+theorem C19_cql_nullable_spec (data : List UInt8) (k : Dst) :
+    unmarshalNullable none k = (true, none) ∧
+    (data.length = 16 → ∀ p, unmarshalNullable (some data) (.uuid p) = (true, some (.uuid data)) ∧
+        unmarshalNullable (some data) (.arr p) = (true, some (.arr data)) ∧
+        (∀ q, unmarshalNullable (some data) (.bytes q) = (true, some (.bytes (some data)))) ∧
+        unmarshalNullable (some data) (.str p) = (true, some (.str (asciiBytes (print data))))) ∧
+    (data.length = 0 → ∀ p, unmarshalNullable (some data) (.uuid p) = (true, some (.uuid zero16)) ∧
+        unmarshalNullable (some data) (.arr p) = (false, some (.arr zero16)) ∧
+        (∀ q, unmarshalNullable (some data) (.bytes q) = (true, some (.bytes none))) ∧
+        unmarshalNullable (some data) (.str p) = (true, some (.str []))) ∧
+    (data.length ≠ 0 → data.length ≠ 16 → unmarshalNullable (some data) k = (false, some k.zero)) := by
+  refine ⟨rfl, fun h p => ?_, fun h p => ?_, fun h0 h16 => ?_⟩
+  · simp [unmarshalNullable, Dst.zero, unmarshalCQL, h]
+  · simp [unmarshalNullable, Dst.zero, unmarshalCQL, h]
+  · simp [unmarshalNullable, unmarshalCQL, h0, h16]
+
+/-- `*UUID` values round-trip through a nullable column: nil pointer ↦ null ↦ nil pointer, a pointer to `u` ↦ the
+    16 bytes ↦ a (fresh) pointer to `u`; and a `**time.Time` reading a timeuuid column of a representable instant
+    gets a pointer to that instant (to 100 ns), a null gives a nil pointer, anything else an error and a pointer to
+    the zero time. -/
+theorem C19_cql_nullable_roundtrip (u : Option (List UInt8)) (h : ∀ v, u = some v → v.length = 16) (p : List UInt8) :
+    ∃ col, marshalPtr u = some col ∧ unmarshalNullable col (.uuid p) = (true, u.map .uuid) := by
+  cases u with
+  | none => exact ⟨none, rfl, rfl⟩
+  | some v =>
+    refine ⟨some v, rfl, ?_⟩
+    have := h v rfl
+    simp [unmarshalNullable, Dst.zero, unmarshalCQL, this]
+
+theorem C19_cql_nullable_time (sec : Int) (nsec clk : Nat) (nd : List UInt8) (h : Representable sec nsec) :
+    unmarshalNullableTime true (some (timeUUIDWith (bits64 (getTimestamp sec nsec)) clk nd)) =
+      (true, some (sec, nsec / 100 * 100)) ∧
+    (∀ tu, unmarshalNullableTime tu none = (true, none)) ∧
+    (∀ d, d.length ≠ 16 → unmarshalNullableTime true (some d) = (false, some zeroTime)) ∧
+    (∀ d, unmarshalNullableTime false (some d) = (false, some zeroTime)) := by
+  refine ⟨?_, fun _ => rfl, fun d hd => ?_, fun d => ?_⟩
+  · have := (C19_cql_time_destination sec nsec clk nd h zeroTime)
+    simp only [unmarshalNullableTime]
+    rw [this.1]
+  · simp [unmarshalNullableTime, unmarshalCQLTime, hd]
+  · simp [unmarshalNullableTime, unmarshalCQLTime]
+
 /-- non-vacuity, and two things worth knowing about `UnmarshalJSON`: (1) it is STRICTER than `ParseUUID` on long
     texts (more than 4 extra hyphens → error); (2) it never looks at the JSON token kind: a 32-digit JSON NUMBER
     (also negative, also with an exponent letter, `e` being a hex digit) decodes as a UUID. -/
